@@ -62,6 +62,7 @@ class Check(PropertyCheck):
         total = gen.num_ops(jobs)
         before = after = 0
         n_eps = rng.randint(2, 3)
+        quiet = rng.random() < 0.3
         for ep in range(n_eps):
             stop = total if rng.random() < 0.5 else rng.randint(0, total)
             k = 0
@@ -69,7 +70,9 @@ class Check(PropertyCheck):
                 j, p, m = gen.gen_valid_request(rng, tr, rng.choice(["uniform", "one_job_first"]))
                 tr.take(j)
                 k += 1
-                lines += [f"disp {j} {p} {m}", "fsnap", "snap"]
+                lines.append(f"disp {j} {p} {m}")
+                if not (quiet and ep > 0 and rng.random() < 0.5):
+                    lines += ["fsnap", "snap"]
                 if ep == 0 and rng.random() < 0.12:
                     # an observer created in the middle of the first episode: after the reset it too is like new
                     late = rng.choice(["remaining_operations -", "is_completed -", "is_completed mj", "duration -",
@@ -80,8 +83,11 @@ class Check(PropertyCheck):
                     before += 1
                 else:
                     after += 1
+            if quiet and ep > 0 and lines[-1] != "snap":
+                lines += ["fsnap", "snap"]
             if ep < n_eps - 1:
-                lines += ["reset", "fsnap", "snap"]
+                # quiet scenarios: nobody looks at the observers between the reset and the next dispatches
+                lines += ["reset"] if quiet else ["reset", "fsnap", "snap"]
                 tr.reset()
         meta = {"family": family, "filter": "none" if f is None else "+".join(f) or "empty-composite",
                 "flexible": gen.is_flexible(jobs), "zero_dur": gen.has_zero(jobs), "before": before, "after": after,
